@@ -3,7 +3,7 @@ import ast
 import re
 
 from ..pycfg import CFG, walk_no_nested
-from ..source import truth, side, atoms, conjuncts, linear, AnalysisError, find_function, first_line, src, functions, enclosing_function, qualname
+from ..source import find_class, truth, side, atoms, conjuncts, linear, AnalysisError, find_function, first_line, src, functions, enclosing_function, qualname
 
 SM = "nemoguardrails/colang/v2_x/runtime/statemachine.py"
 RUNTIME_FILES = ["nemoguardrails/colang/v2_x/runtime/statemachine.py", "nemoguardrails/colang/v2_x/runtime/runtime.py",
@@ -30,6 +30,8 @@ def run(ctx):
     t = ctx.tree.ast(SM)
     a_stop_discipline(ctx, t)
     a_status_follows_events(ctx, t)
+    a_action_status_machine(ctx)
+    d_stop_and_start_of_activated(ctx, t)
     b_siblings(ctx, t)
     d_activation(ctx)
     e_start_under_live_parent(ctx, t)
@@ -153,6 +155,76 @@ def a_status_follows_events(ctx, t):
                       "the life-cycle event is applied only under `%s`, which depends on the flow that CREATED the action (Action.flow_uid): a shared action whose creator has ended no "
                       "longer sees its Finished event, stays STARTED, and the last flow holding it sends a Stop for an action that already finished" % first_line(bad[0], 80),
                       line=c.lineno)
+
+
+FLOWS2 = "nemoguardrails/colang/v2_x/runtime/flows.py"
+
+
+def a_action_status_machine(ctx):
+    """Action.process_event keeps the facts the Stop discipline relies on.  (i) Outgoing events are fed back as input; a `Start...Action` event that comes back for an action
+    that is already running must not reset `flow_scope_count` to 1 - the shares added for co-winning flows would be lost and the action stopped when the FIRST sharing flow
+    ends (F127).  (ii) A late `...ActionStarted` acknowledgement must not move a STOPPING action back to STARTED: the flow's end would send a second Stop (F129)."""
+    t = ctx.tree.ast(FLOWS2)
+    cls = find_class(t, "Action")
+    pe = None
+    for f in (cls.body if cls is not None else []):
+        if isinstance(f, (ast.FunctionDef, ast.AsyncFunctionDef)) and f.name == "process_event":
+            pe = f
+    if pe is None:
+        raise AnalysisError("Action.process_event not found", anchor=FLOWS2 + "::Action.process_event")
+    resets = [a for a in ast.walk(pe) if isinstance(a, ast.Assign) and src(a.targets[0]) == "self.flow_scope_count" and isinstance(a.value, ast.Constant) and a.value.value == 1]
+    ctx.floor("C06.a.action-status-machine", FLOWS2, "initialisation of the share count on Start", len(resets), 1)
+    for a in resets:
+        guarded = any(isinstance(p_, ast.If) and "self.status" in src(p_.test) for p_ in _anc(a, pe))
+        ctx.check("C06.a.action-status-machine", FLOWS2, "Action.process_event", "share count initialised only for an action that is not running", guarded,
+                  "`flow_scope_count = 1` is set only when the action is not running yet" if guarded else
+                  "every `Start...` event sets `flow_scope_count = 1`, also the copy of the outgoing event that the runtime feeds back: the shares of co-winning flows are lost, and the "
+                  "shared action is stopped when the first of the sharing flows ends", line=a.lineno)
+    started = [a for a in ast.walk(pe) if isinstance(a, ast.Assign) and src(a.targets[0]) == "self.status" and src(a.value) == "ActionStatus.STARTED"]
+    for a in started:
+        guarded = any(isinstance(p_, ast.If) and "STOPPING" in src(p_.test) and "self.status" in src(p_.test) for p_ in _anc(a, pe))
+        ctx.check("C06.a.action-status-machine", FLOWS2, "Action.process_event", "a stopping action stays stopping", guarded,
+                  "`...ActionStarted` does not overwrite STOPPING" if guarded else
+                  "`...ActionStarted` sets STARTED unconditionally: an action the flow has already stopped (`send $ref.Stop()`) becomes STARTED again when the late acknowledgement "
+                  "arrives, and the end of the flow sends a second Stop for it", line=a.lineno)
+
+
+def d_stop_and_start_of_activated(ctx, t):
+    """(i) `StopFlow(flow_instance_uid=...)` stops ONE instance.  For an instance of an activated flow that is an ordinary end: the flow is started again while an activator
+    runs.  Passing `deactivate_flow=<instance is activated>` to _abort_flow turns it into a deactivation - the flow never restarts although its activator is running (F126).
+    (ii) The dispatch ignores a queued StartFlow whose sender has ended, except for the self-restart of an activated flow.  The exemption must be exactly that: an ended
+    activated instance may restart ITSELF, a queued start of ANOTHER flow by it is ignored, otherwise the child is created under a stopped parent and nothing ever stops it (F125)."""
+    disp = find_function(t, "_process_internal_events_without_default_matchers")
+    if disp is None:
+        raise AnalysisError("dispatch not found", anchor=SM + "::_process_internal_events_without_default_matchers")
+    stops = [i for i in ast.walk(disp) if isinstance(i, ast.If) and "STOP_FLOW" in src(i.test)]
+    n = 0
+    for i in stops:
+        for j in [x for x in ast.walk(i) if isinstance(x, ast.If) and "flow_instance_uid" in src(x.test)]:
+            for c in [c for st in j.body for c in ast.walk(st) if isinstance(c, ast.Call) and src(c.func) == "_abort_flow"]:
+                n += 1
+                kw = [k for k in c.keywords if k.arg == "deactivate_flow"]
+                bad = bool(kw) and "activated" in src(kw[0].value)
+                ctx.check("C06.d.stop-instance-restarts", SM, disp.name, "StopFlow by instance uid", not bad,
+                          "stopping an instance by its uid is an ordinary end of that instance" if not bad else
+                          "`%s`: stopping one instance of an activated flow deactivates the flow - it is not started again although a flow that activated it is still running" % first_line(kw[0], 60),
+                          line=c.lineno)
+            break
+    ctx.floor("C06.d.stop-instance-restarts", SM, "abort of a flow instance addressed by uid", n, 1)
+    ign = [i for i in ast.walk(disp) if isinstance(i, ast.If) and "_is_done_flow(" in src(i.test) and "source" in src(i.test)]
+    for i in ign[:1]:
+        # an ended activated sender that starts ANOTHER flow: the start is ignored
+        facts = {(lambda e: isinstance(e, ast.Call) and src(e.func) == "_is_done_flow"): True,
+                 (lambda e: isinstance(e, ast.Compare) and "is not None" in src(e) or (isinstance(e, ast.Compare) and isinstance(e.ops[0], ast.IsNot))): True,
+                 (lambda e: isinstance(e, ast.Compare) and ".activated" in src(e.left) and isinstance(e.ops[0], ast.Eq)): False,
+                 (lambda e: isinstance(e, ast.Compare) and "flow_id" in src(e.left) and "flow_id" in src(e.comparators[0]) and isinstance(e.ops[0], ast.NotEq)): True,
+                 (lambda e: isinstance(e, ast.Compare) and "flow_id" in src(e.left) and "flow_id" in src(e.comparators[0]) and isinstance(e.ops[0], ast.Eq)): False}
+        v = truth(i.test, facts)
+        ok = v is True
+        ctx.check("C06.e.live-parent", SM, disp.name, "ended activated sender starting another flow", ok,
+                  "only the self-restart of an ended activated instance is let through" if ok else
+                  "every queued StartFlow of an ended instance with `activated > 0` is let through, not only its own restart: a flow it had queued is created as the child of a stopped "
+                  "instance and is never stopped (it outlives its starter and the activator)", line=i.lineno)
 
 
 def _block_of(stmt):
